@@ -848,7 +848,7 @@ func runTaint(p *Prog) *taintEngine {
 }
 
 func checkC17(p *Prog, r *Report) {
-	ruleRegexpConsts(p, r, "R-RX", "C17", 2)
+	ruleRegexpConsts(p, r, "R-RX", "C17", 1)
 	r.rule("R17.1", "No secret reaches a log/terminal sink. Sources: result 2 of (*program.Config).GetUserPass, term.ReadPassword, Config.Password (password); the keygen reply passed to panos.parseAPIKey and its result, hence panos.State.urlPrefix (apikey); the x-xsrf-token response header, hence nsx.State.token (token). Sinks: errlog.Info/Warning/Abort/DoLog/PrintWithMarker, fmt.Print*, fmt.Fprint* to anything but a local strings.Builder, (*os.File).Write*, os.WriteFile, console.logString, doapprove.logHistory, status.write and the front-ends' abort/warn helpers. Propagation: inter-procedural with label-polymorphic summaries (parameter -> result, parameter -> sink, parameter -> field), field-based for struct fields, flow-sensitive for mutable containers (url.Values, headers, builders: tainted only after the instruction that stores the secret), and the error of (*http.Client).Get/Do/PostForm carries the labels of the request URL. Sanitisers: (*regexp.Regexp).ReplaceAllString whose pattern names the label (password=, key=, <key>) and whose replacement contains xxx. What is sent to the device is not a sink.")
 	e := runTaint(p)
 	// every syntactic source site, whether or not anything downstream asked for it
@@ -920,6 +920,7 @@ func checkC17(p *Prog, r *Report) {
 	r.note("fields holding secrets: %v", fl)
 	r.add("R17.1", "secret-fields-found", "", fmt.Sprintf("struct fields that hold a secret: %v", fl), len(fl) >= 3, "the field-based propagation found fewer secret-carrying fields than confirmed by hand (urlPrefix, token, Password)")
 	rulePasswordSends(p, r)
+	rulePromptTestFresh(p, r, "R17.4", map[string]bool{"cisco": true, "asa": true, "ios": true, "linux": true}, 2)
 	// R17.2: the tracing facilities of the libraries that carry the secrets
 	r.rule("R17.2", "The libraries that carry the secrets are never switched to tracing: no call of goexpect.Verbose, VerboseWriter, Tee or DebugCheck (they print or copy everything that is sent to the device, the login and enable passwords included), of httputil.DumpRequest / DumpRequestOut / DumpResponse, or of httptrace.WithClientTrace anywhere in the module's production code. The taint rule R17.1 trusts that library functions do not log by themselves; these options are the way to make them do it.")
 	forbidden := map[string]string{
